@@ -58,6 +58,8 @@ pub fn mask_of(n: usize, idx: usize) -> Vec<bool> {
 }
 
 pub struct OpCase {
+    /// operand 1 is the very same array as operand 0 (x * x, the Gram forms of matmul)
+    pub same: bool,
     pub kind: OpKind,
     pub dims: Vec<Vec<usize>>,
     pub vals: Vec<Vec<f64>>,
@@ -70,6 +72,10 @@ impl OpCase {
         let mut p = Program::default();
         let mut args = vec![];
         for i in 0..self.dims.len() {
+            if self.same && i == 1 {
+                args.push(args[0]);
+                continue;
+            }
             args.push(p.leaf(&self.dims[i], &self.vals[i], self.mask[i]));
         }
         p.op(self.kind.clone(), &args);
@@ -142,7 +148,7 @@ pub fn gen_unary(r: &mut Rng, k: u64) -> OpCase {
         _ => (0..n).map(|_| if r.chance(1, 8) { 0.0 } else { let m = r.int(1, 4); if r.chance(1, 2) { m } else { -m } }).collect(),
     };
     let cell = format!("{}|{}", kind.name(), shape_class(&d));
-    OpCase { kind, dims: vec![d], vals: vec![vals], mask: vec![true], cell }
+    OpCase { same: false, kind, dims: vec![d], vals: vec![vals], mask: vec![true], cell }
 }
 
 pub fn gen_binary(r: &mut Rng, k: u64) -> Option<OpCase> {
@@ -159,7 +165,12 @@ pub fn gen_binary(r: &mut Rng, k: u64) -> Option<OpCase> {
     let vb = if kind == OpKind::Div { if r.chance(1, 2) { rand_pos(r, numel(&db)) } else { rand_quarters_nz(r, numel(&db)) } } else { rand_ints(r, numel(&db), -4, 4) };
     let mask = mask_of(2, r.below(3));
     let cell = format!("{}|{}", kind.family(), super::c04::pair_class(&da, &db));
-    Some(OpCase { kind, dims: vec![da, db], vals: vec![va, vb], mask, cell })
+    // the same array as both operands (x * x, x - x, x / x, axpy(a, x, x))
+    if da == db && r.chance(1, 4) {
+        let v = if kind == OpKind::Div { vb.clone() } else { va.clone() };
+        return Some(OpCase { same: true, kind, dims: vec![da, db], vals: vec![v.clone(), v], mask: vec![true, true], cell: format!("{}|same-operand", cell.split('|').next().unwrap_or("")) });
+    }
+    Some(OpCase { same: false, kind, dims: vec![da, db], vals: vec![va, vb], mask, cell })
 }
 
 /// leading-dimension patterns for batched matmul: (lead of a, lead of b)
@@ -189,6 +200,30 @@ pub fn gen_matmul(r: &mut Rng, k: u64) -> OpCase {
     let form = k % 16;
     k /= 16;
     if form >= 14 {
+        if k % 5 == 4 {
+            // Gram forms: the same array in both slots with opposite transposes (a a^T, a^T a), optionally batched
+            let (m, kk) = (r.range(1, 3), r.range(1, 3));
+            let lead: Vec<usize> = if r.chance(1, 3) { vec![r.range(2, 3)] } else { vec![] };
+            let ta = r.chance(1, 2);
+            let mut da = lead.clone();
+            da.extend(&[m, kk]);
+            let n = if ta { kk } else { m };
+            let with_c = r.chance(1, 3);
+            let mut dims = vec![da.clone(), da.clone()];
+            if with_c {
+                dims.push(vec![n]);
+            }
+            let v = rand_ints(r, numel(&da), -3, 3);
+            let mut vals = vec![v.clone(), v];
+            if with_c {
+                vals.push(rand_ints(r, n, -3, 3));
+            }
+            let nops = dims.len();
+            let mut mask = mask_of(nops, r.below((1 << nops) - 1));
+            mask[0] = true;
+            mask[1] = true;
+            return OpCase { same: true, kind: OpKind::Matmul { ta, tb: !ta, c: with_c }, dims, vals, mask, cell: format!("matmul|gram|t{}{}", ta as u8, !ta as u8) };
+        }
         return gen_matmul_rank1(r, k);
     }
     let (la, lb, lname) = lead_pattern(r, form);
@@ -231,7 +266,7 @@ pub fn gen_matmul(r: &mut Rng, k: u64) -> OpCase {
     let nops = dims.len();
     let mask = mask_of(nops, r.below((1 << nops) - 1));
     let cell = format!("matmul|t{}{}|lead-{}|c{}", ta as u8, tb as u8, lname, cform);
-    OpCase { kind: OpKind::Matmul { ta, tb, c: dc.is_some() }, dims, vals, mask, cell }
+    OpCase { same: false, kind: OpKind::Matmul { ta, tb, c: dc.is_some() }, dims, vals, mask, cell }
 }
 
 pub fn gen_matmul_rank1(r: &mut Rng, k: usize) -> OpCase {
@@ -282,7 +317,7 @@ pub fn gen_matmul_rank1(r: &mut Rng, k: usize) -> OpCase {
     let nops = dims.len();
     let mask = mask_of(nops, r.below((1 << nops) - 1));
     let cell = if has_c { format!("{}+c", cell) } else { cell };
-    OpCase { kind, dims, vals, mask, cell }
+    OpCase { same: false, kind, dims, vals, mask, cell }
 }
 
 pub fn gen_conv(r: &mut Rng, k: u64) -> OpCase {
@@ -319,7 +354,7 @@ pub fn gen_conv(r: &mut Rng, k: u64) -> OpCase {
     );
     let vals = vec![rand_ints(r, numel(&di), -3, 3), rand_ints(r, numel(&df), -3, 3)];
     let mask = mask_of(2, r.below(3));
-    OpCase { kind: OpKind::Conv { sr, sc }, dims: vec![di, df], vals, mask, cell }
+    OpCase { same: false, kind: OpKind::Conv { sr, sc }, dims: vec![di, df], vals, mask, cell }
 }
 
 /// operations at sizes beyond small blocking thresholds: matmul 5..12, conv images up to 10 with filters up to 4,
@@ -346,7 +381,7 @@ pub fn gen_large(r: &mut Rng, k: u64) -> OpCase {
             if with_c { dims.push(vec![n]); }
             let vals = dims.iter().map(|d| rand_ints(r, numel(d), -2, 2)).collect();
             let nops = dims.len();
-            OpCase { kind: OpKind::Matmul { ta, tb, c: with_c }, dims, vals, mask: mask_of(nops, r.below((1 << nops) - 1)), cell: "large|matmul".into() }
+            OpCase { same: false, kind: OpKind::Matmul { ta, tb, c: with_c }, dims, vals, mask: mask_of(nops, r.below((1 << nops) - 1)), cell: "large|matmul".into() }
         }
         1 => {
             let (fr, fc) = (r.range(1, 4), r.range(1, 4));
@@ -358,14 +393,14 @@ pub fn gen_large(r: &mut Rng, k: u64) -> OpCase {
             di.extend(&[d, h, w]);
             let df = vec![cnt, d, fr, fc];
             let vals = vec![rand_ints(r, numel(&di), -2, 2), rand_ints(r, numel(&df), -2, 2)];
-            OpCase { kind: OpKind::Conv { sr, sc }, dims: vec![di, df], vals, mask: mask_of(2, r.below(3)), cell: "large|conv".into() }
+            OpCase { same: false, kind: OpKind::Conv { sr, sc }, dims: vec![di, df], vals, mask: mask_of(2, r.below(3)), cell: "large|conv".into() }
         }
         2 => {
             let n = super::shapes::long_dim(r).max(17);
             let d = if r.chance(1, 2) { vec![2, n] } else { vec![n] };
             let kk = r.range(1, d.len());
             let vals = vec![rand_ints(r, numel(&d), -4, 4)];
-            OpCase { kind: OpKind::Sum(kk), dims: vec![d], vals, mask: vec![true], cell: "large|sum".into() }
+            OpCase { same: false, kind: OpKind::Sum(kk), dims: vec![d], vals, mask: vec![true], cell: "large|sum".into() }
         }
         _ => {
             let n = super::shapes::long_dim(r).max(17);
@@ -373,7 +408,7 @@ pub fn gen_large(r: &mut Rng, k: u64) -> OpCase {
             let db = if r.chance(1, 2) { vec![n] } else { vec![full[0], 1] };
             let kind = [OpKind::Add, OpKind::Mul, OpKind::Sub, OpKind::Axpy(-2.0)][r.below(4)].clone();
             let vals = vec![rand_ints(r, numel(&full), -4, 4), rand_ints(r, numel(&db), -4, 4)];
-            OpCase { kind, dims: vec![full, db], vals, mask: mask_of(2, r.below(3)), cell: "large|elementwise".into() }
+            OpCase { same: false, kind, dims: vec![full, db], vals, mask: mask_of(2, r.below(3)), cell: "large|elementwise".into() }
         }
     }
 }
@@ -396,7 +431,7 @@ pub fn run_case(ctx: &mut Ctx, fam: &str, k: u64, r: &mut Rng) {
     // now and then one operand with structure a value-dependent shortcut could key on (inside the operation's domain)
     if r.chance(1, 8) {
         let i = r.below(case.dims.len());
-        let needs_positive = matches!((&case.kind, i), (OpKind::Div, 1) | (OpKind::Ln, 0) | (OpKind::Recip, 0) | (OpKind::Powf(_), 0));
+        let needs_positive = matches!((&case.kind, i), (OpKind::Div, 1) | (OpKind::Ln, 0) | (OpKind::Recip, 0) | (OpKind::Powf(_), 0)) || (case.same && case.kind == OpKind::Div);
         let v = special_values(r, &case.dims[i]);
         if !needs_positive || v.iter().all(|x| *x > 0.0) {
             case.vals[i] = v;
